@@ -59,7 +59,7 @@ CONFIGS = [
 # the emulated architectures (arrays of scalars; -DXSIMD_WITH_EMULATED=1): analysed where the engines can follow them
 EMULATED = [
     Config('emu128', 'xsimd::emulated<128>', SSE2 + ['-DXSIMD_WITH_EMULATED=1'], 128, family='emu'),
-    Config('emu256', 'xsimd::emulated<256>', SSE2 + ['-DXSIMD_WITH_EMULATED=1'], 256, family='emu'),
+    Config('emu256', 'xsimd::emulated<256>', AVX + ['-DXSIMD_WITH_EMULATED=1'], 256, family='emu'),       # -mavx only so that the 256-bit exchange vector is one register
 ]
 BY_NAME = dict((c.name, c) for c in CONFIGS + EMULATED)
 
